@@ -43,7 +43,7 @@ META = {
     "level_note": "Compiled SQL only (no execution needed for this property). Dialects: sqlite, postgresql, mysql, mssql, oracle, default with default options. The __dict__ monitor is shallow (identity of attribute values, membership of builtin containers) over elements reachable by visitors.iterate; state hidden in non-element helper objects is observed only through SQL/params/cache key. Both cext and purepy modes.",
     "design_ref": "DESIGN.md section 4, C03",
     "rule": "case = one tree; non-trivial = tree with a branch point (a node with >=2 children) or >=3 distinct method kinds; distinct by (base spec, op name sequence with parents)",
-    "shards": {"quick": 8, "thorough": 16},
+    "shards": {"quick": 8, "thorough": 8},   # x2 modes = 16 processes, one wave on 16 cores
     "modes": ["cext", "purepy"],
     "soft_s": {"quick": 90, "thorough": 800},
     "exhaustive": {"quick": False, "thorough": False},
